@@ -90,23 +90,67 @@ def h_life(su: int, body: int, td: int, c1: int, c2: int, ncl: int, flag: int, f
     return ch.finish(not o["problems"], v, nontrivial=len(o["raised"]) >= 1)
 
 
-def h_skipdeco(deco: int, body: int, flav: int) -> bool:
+SKIP_REASONS = ["deco", ""]
+
+
+def h_skipdeco(deco: int, reason: int, body: int, flav: int) -> bool:
     """
-    pre: 0 <= deco < 2 and 0 <= body < 10 and 0 <= flav < 7
+    pre: 0 <= deco < 6 and 0 <= reason < 2 and 0 <= body < 10 and 0 <= flav < 7
     post: _
     """
     try:
-        v = dict(deco=ch.sel("deco", deco, 2), body=ch.sel("body", body, P.N_KINDS),
+        v = dict(deco=ch.sel("deco", deco, 6), reason=ch.sel("reason", reason, 2), body=ch.sel("body", body, P.N_KINDS),
                  flav=ch.sel("flav", flav, 7))
     except ch.Prune:
         return True
-    o = run_skipdeco(v["deco"], v["body"], v["flav"])
+    o = run_skipdeco(v["deco"], v["reason"], v["body"], v["flav"])
     return ch.finish(not o["problems"], v, nontrivial=True)
 
 
-def run_skipdeco(deco, body, flav):
+def h_xfdeco(body: int, td: int, flav: int) -> bool:
+    """
+    pre: 0 <= body < 10 and 0 <= td < 10 and 0 <= flav < 7
+    post: _
+    """
+    try:
+        v = dict(body=ch.sel("body", body, P.N_KINDS), td=ch.sel("td", td, P.N_KINDS), flav=ch.sel("flav", flav, 7))
+    except ch.Prune:
+        return True
+    o = run_xfdeco(v["body"], v["td"], v["flav"])
+    return ch.finish(not o["problems"], v, nontrivial=True)
+
+
+def run_xfdeco(body, td, flav):
+    """The test method carries @unittest.expectedFailure: bracketing, one outcome, and a non-Exception raised by the
+    decorated method is still an error that propagates."""
     log = []
-    case = P.make_case(P.RET, body, P.RET, [P.FAIL], log, skip_deco=deco + 1)
+    case = P.make_case(P.RET, body, td, [P.RET], log, xf_deco=True)
+    names, exc, _ = L.run_once(case, flav)
+    ok_br, seen = L.outcome_of(names, flav)
+    problems = []
+    if not ok_br:
+        problems.append("not bracketed / not exactly one outcome: %r" % (names,))
+    if log != ["setUp", "body", "tearDown", "cleanup0"]:
+        problems.append("stages did not all run: %r" % (log,))
+    base = body in P.BASE_KINDS or td in P.BASE_KINDS
+    if base:
+        if ok_br and seen != L.seen_as("error", flav):
+            problems.append("non-Exception raised but outcome is %s" % seen)
+        if not isinstance(exc, (KeyboardInterrupt, SystemExit)):
+            problems.append("non-Exception did not propagate out of run(): %r" % (exc,))
+    else:
+        if exc is not None:
+            problems.append("run() raised %r" % (exc,))
+        if ok_br and td == P.RET and body in (P.RET, P.FAIL, P.ERROR):
+            want = "uxsuccess" if body == P.RET else "xfail"
+            if seen != L.seen_as(want, flav):
+                problems.append("decorated method %s but outcome is %s" % (P.KIND_NAMES[body], seen))
+    return {"names": names, "exc": type(exc).__name__ if exc else None, "log": log, "problems": problems}
+
+
+def run_skipdeco(deco, reason, body, flav):
+    log = []
+    case = P.make_case(P.RET, body, P.RET, [P.FAIL], log, skip_deco=deco + 1, skip_reason=SKIP_REASONS[reason])
     names, exc, _ = L.run_once(case, flav)
     ok_br, seen = L.outcome_of(names, flav)
     problems = []
@@ -162,12 +206,20 @@ HARNESSES = [
                      "cleanups are registered in setUp before its raise point",
                      "when setUp raises, body/tearDown kinds are irrelevant (canonical form: return)"]),
     Harness(
-        "skipdeco", h_skipdeco, lambda tier: [({}, 240)],
-        bounds={"quick": "method/class decorated with skip x 10 body behaviours x 7 flavours"},
+        "skipdeco", h_skipdeco, lambda tier: [({"deco": d}, 240) for d in range(6)],
+        bounds={"quick": "method / class decorated with testtools skip, skipIf(True) / skipUnless(False), unittest.skip x reason "
+                         "{non-empty, empty string} x 10 body behaviours x 7 flavours"},
         rule="every path non-trivial (decorated test)",
-        fidelity=lambda seed: [(d, b, f) for d in range(2) for b in (0, 1, 7) for f in range(7)],
+        fidelity=lambda seed: [(d, r, b, f) for d in range(6) for r in range(2) for b in (0, 7) for f in range(7)],
         observe=lambda *a: (lambda o: (o["names"], o["log"]))(run_skipdeco(*a)),
         describe=lambda *a: run_skipdeco(*a)),
+    Harness(
+        "xfdeco", h_xfdeco, lambda tier: [({"flav": f}, 240) for f in range(7)],
+        bounds={"quick": "test method decorated with unittest.expectedFailure x 10 body behaviours x 10 tearDown behaviours x 7 flavours"},
+        rule="every path non-trivial (decorated test)",
+        fidelity=lambda seed: [(b, t, f) for b in range(P.N_KINDS) for t in (0, 2) for f in (2, 5)],
+        observe=lambda *a: (lambda o: (o["names"], o["exc"], o["log"]))(run_xfdeco(*a)),
+        describe=lambda *a: run_xfdeco(*a)),
 ]
 OUTSIDE = ["constituents of MultipleExceptions other than (failure, error)",
            "user code that tampers with the result object",
